@@ -22,6 +22,7 @@ Proof.
   destruct (rec_snapshot _) as [[s3 tr3]|] eqn:E3; [|discriminate].
   unfold rec_committed in ER. rewrite Hrc in ER.
   match type of ER with context [scan_configs P ?S ?F ?N] => destruct (scan_configs P S F N) as [s5|] eqn:ES end; [|discriminate].
+  fold (rec_fin s5) in ER. rewrite (fun H => rec_fin_norc _ _ _ _ _ _ _ H E3 ES) in ER by reflexivity.
   inversion ER; subst s5 tr. clear ER.
   pose proof (scan_configs_fsm _ _ _ _ _ ES) as F5.
   pose proof (scan_configs_durable _ _ _ _ _ ES) as (_ & _ & A5 & _ & _ & _ & SI5 & ST5 & _ & C5).
